@@ -183,8 +183,15 @@ def reject_case(draw):
     g = draw(gen.geom(nmax=9))
     nd = len(g["n"])
     kind = draw(st.sampled_from(["point-outside", "index-out", "index-arity", "point-arity",
-                                 "index-type", "point-type"]))
+                                 "index-type", "point-type", "one-bad-element", "constructor"]))
     c = {"g": g, "kind": kind}
+    if kind == "one-bad-element":
+        # a single malformed entry among good ones (point, index, cell, n)
+        c["what"] = draw(st.sampled_from(["point-str", "point-complex", "index-float", "index-str", "cell-nonpositive",
+                                          "cell-str", "n-zero", "n-negative", "n-float"]))
+        c["axis"] = draw(st.integers(0, nd - 1))
+    if kind == "constructor":
+        c["what"] = draw(st.sampled_from(["n-and-cell", "neither", "region-and-p1", "only-p1", "nothing", "region-type"]))
     if kind == "point-outside":
         spec = draw(gen.probe_spec(g["n"], ("c", "f", "v")))
         ax = draw(st.integers(0, nd - 1))
@@ -256,6 +263,39 @@ def check_reject(case):
     elif kind == "point-type":
         bad = {"str": "abc"[: lat.ndim] if lat.ndim <= 3 else "abcd", "none": None, "complex": [1j] * lat.ndim}[case["bad"]]
         _expect_raise(lambda: mesh.point2index(bad), (TypeError, ValueError), "bad-point-type-accepted", repr(bad))
+    elif kind == "one-bad-element":
+        what, ax = case["what"], case["axis"]
+        tag(what)
+        centre = [float(x) for x in lat.centre([0] * lat.ndim)]
+        cell = [float(x) for x in lat.cell]
+        n = [int(i) for i in g["n"]]
+        errs = (TypeError, ValueError, IndexError)
+        if what.startswith("point"):
+            centre[ax] = "1" if what == "point-str" else 1j
+            _expect_raise(lambda: mesh.point2index(tuple(centre)), errs, "bad-point-element-accepted", repr(centre))
+        elif what.startswith("index"):
+            idx = [0] * lat.ndim
+            idx[ax] = 0.5 if what == "index-float" else "0"
+            _expect_raise(lambda: mesh.index2point(tuple(idx)), errs, "bad-index-element-accepted", repr(idx))
+        elif what.startswith("cell"):
+            cell[ax] = -cell[ax] if what == "cell-nonpositive" else "1"
+            if what == "cell-nonpositive" and case["g"]["n"][ax] % 2 == 0:
+                cell[ax] = 0.0
+            _expect_raise(lambda: df.Mesh(region=gen.build_region(g), cell=tuple(cell)), errs, "bad-cell-element-accepted",
+                          repr(cell))
+        else:
+            n[ax] = {"n-zero": 0, "n-negative": -n[ax], "n-float": n[ax] + 0.5}[what]
+            _expect_raise(lambda: df.Mesh(region=gen.build_region(g), n=tuple(n)), errs, "bad-n-element-accepted", repr(n))
+    elif kind == "constructor":
+        what = case["what"]
+        tag(what)
+        r = gen.build_region(g)
+        p1, p2 = tuple(float(x) for x in lat.pmin), tuple(float(x) for x in lat.pmax)
+        n, cell = tuple(int(i) for i in g["n"]), tuple(float(x) for x in lat.cell)
+        calls = {"n-and-cell": lambda: df.Mesh(region=r, n=n, cell=cell), "neither": lambda: df.Mesh(region=r),
+                 "region-and-p1": lambda: df.Mesh(region=r, p1=p1, p2=p2, n=n), "only-p1": lambda: df.Mesh(p1=p1, n=n),
+                 "nothing": lambda: df.Mesh(n=n), "region-type": lambda: df.Mesh(region=(p1, p2), n=n)}
+        _expect_raise(calls[what], (TypeError, ValueError), "bad-constructor-arguments-accepted", what)
 
 
 @st.composite
